@@ -1,0 +1,24 @@
+//go:build verif
+
+// Machine-checked contracts for package config (comment-only; see /verif/DESIGN.md).
+
+package config
+
+//@ func (*Config).GetKey
+//@   property C04
+//@   nopanic
+//@   requires forall(k, inmap(config.Keys, k) ==> config.Keys[k] != nil)
+//@   ensures @success_is_the_key_behind_one_alias ret1 == nil ==> inmap(config.Keys, keyName) && \
+//@        ret0 == ite(config.Keys[keyName].Alias == "", config.Keys[keyName], config.Keys[config.Keys[keyName].Alias]) && \
+//@        (config.Keys[keyName].Alias != "" ==> inmap(config.Keys, config.Keys[keyName].Alias))
+//@   ensures @success_has_a_token ret1 == nil ==> ret0 != nil && ret0.Token != ""
+//@   ensures @failure_returns_no_key ret1 != nil ==> ret0 == nil
+//@   modifies nothing
+//@
+//@ func (*ClientConfig).Match
+//@   property C04
+//@   ghost verified bool = false
+//@   on call (*crypto/x509.Certificate).Verify(l, o) ret (ch, e): \
+//@        verified = (e == nil && l == incoming[0] && o.Roots == cl.certs && cl.certs != nil && len(o.KeyUsages) == 1 && o.KeyUsages[0] == x509.ExtKeyUsageClientAuth)
+//@   ensures @match_needs_chain_to_the_client_ca ret0 ==> verified && ret1 == nil
+//@   ensures @no_ca_no_match cl.certs == nil || len(incoming) == 0 ==> !ret0 && ret1 == nil
